@@ -46,6 +46,9 @@ D3(pre, ev, out, post, gap) ==
             THEN IF gap # 0 THEN rr = <<>> ELSE Len(rr) = 1 /\ rr[1].b = pre.nin /\ rr[1].e = 0
             ELSE rr = <<>>
 D4(pre, ev, out, post) == (ev.f.seq > pre.nin /\ ~IsResetMode(ev.f)) => post.nin = pre.nin
+\* nothing is silently skipped: when the expected number moves past an application message, that message was delivered
+D5(pre, ev, out, post) ==
+    (ev.f.kind = "APP" /\ ev.f.seq = pre.nin /\ post.nin = pre.nin + 1) => out.deliv = <<ev.f.seq>>
 \* history: delivered numbers strictly increase
 DH(out, lastDeliv) == out.deliv # <<>> => out.deliv[1] > lastDeliv
 
